@@ -15,6 +15,7 @@
 package circuitbreaker
 
 import (
+	"math"
 	"reflect"
 	"sync/atomic"
 
@@ -640,7 +641,7 @@ func newErrorCountCircuitBreakerWithStat(r *Rule, stat *errorCounterLeapArray) *
 			probeNumber:          r.ProbeNum,
 		},
 		minRequestAmount:    r.MinRequestAmount,
-		errorCountThreshold: uint64(r.Threshold),
+		errorCountThreshold: uint64(math.Ceil(r.Threshold)), // the count has to reach a fractional threshold
 		stat:                stat,
 	}
 }
